@@ -1,7 +1,7 @@
 """Translate the record log of one real run into the line protocol of the Lean driver
 (labels = atomic actions, o* = observations of the real state).  Purely syntactic."""
 
-TICKS = 1024
+TICKS = 1280
 
 
 def ticks(t):
@@ -93,7 +93,7 @@ def translate(row, sid, cfg=None):
             pass
         elif k == 'hSched':
             out.append(f"hSched {r['x']} {r['i']} {r['b']} {r['e']} {r['h']}")
-            if r['hk'] == 'forward':
+            if r['hk'] in ('forward', 'expect'):
                 out.append(f"hStart {r['i']}")
                 fwd_inst[r['i']] = True
         elif k == 'hStart':
@@ -110,8 +110,6 @@ def translate(row, sid, cfg=None):
                     out.append(f"hEnd {r['i']} {'ret' if r['what'] == 'result' else 'raise'}")
                 out.append(f"hFinish {r['i']} {fin_of(r)}")
         elif k == 'peEnd':
-            if sc['buses'][r['b']].get('wal'):
-                out.append(f"walWrite {r['p']} {r['b']} {r['e']} {int(r.get('walok', True))}")
             out.append(f"peEnd {r['p']} {r['b']} {r['e']}")
             s = r['snap']
             out.append(f"oEvS {r['e']} {s['st']} {int(s['sig'])} {len(s['res'])}")
@@ -119,6 +117,10 @@ def translate(row, sid, cfg=None):
                 out.append(f"oEvS {e2} {st} {int(sg)} {nr}")
             out.append(f"oHist {r['b']} {lst(r['bus']['hist'])}")
             out.append(f"oUnf {r['b']} {r['bus']['unf'] - 1}")   # task_done() follows at once
+            if r['p'].startswith('R'):
+                nxt = log[idx + 1] if idx + 1 < n else None
+                if not (nxt is not None and nxt['k'] == 'idleSet' and nxt['p'] == r['p']):
+                    out.append(f"oIdle {r['b']} {int(r['bus']['idle'])}")
         elif k == 'peAbort':
             out.append(f"peAbort {r['p']} {r['b']} {r['e']}")
         elif k == 'awaitBegin':
@@ -144,11 +146,68 @@ def translate(row, sid, cfg=None):
         elif k == 'xAwaitRaise':
             out.append(f"xAwaitRaise {r['e']} {r['why']}")
         elif k == 'readbus':
-            out.append(f"oReadBus {r['i']} {r['got']}")
-        elif k == 'waitIdleBegin' or k == 'waitIdleEnd':
-            pass
+            out.append(f"readBus {r['i']} {r['got'] if isinstance(r['got'], int) and r['got'] >= 0 else '-'}")
+        elif k == 'waitIdleBegin':
+            nxt = log[idx + 1] if idx + 1 < n else None
+            if nxt is not None and nxt['k'] == 'rlcreate' and nxt['b'] == r['b']:
+                out.append(f"rlCreate {r['b']}")     # wait_until_idle() starts the bus first
+                skip.add(idx + 1)
+            out.append(f"wiBegin {r['x']} {r['b']}")
+        elif k == 'waitIdleEnd':
+            out.append(f"wiEnd {r['x']}")
+            out.append(f"oQueue {r['b']} {lst(r['bus']['q'])}")
+            out.append(f"oIdle {r['b']} {int(r['bus']['idle'])}")
+            out.append(f"oUnf {r['b']} {r['bus']['unf']}")
+        elif k == 'idleSet':
+            p = r['p']
+            prev = log[idx - 1] if idx > 0 else None
+            nxt = log[idx + 1] if idx + 1 < n else None
+            if p.startswith('R'):
+                if prev is not None and prev['k'] == 'peEnd' and prev['p'] == p:
+                    out.append(f"oIdle {r['b']} 1")      # part of the run loop's peEnd block
+                elif prev is not None and prev['k'] == 'idleSet' and prev['p'] == p and prev['t'] == r['t'] and idx >= 2 and log[idx - 2]['k'] == 'peEnd':
+                    out.append(f"oIdle {r['b']} 1")
+                elif nxt is not None and nxt['k'] == 'rlDone' and nxt['b'] == r['b']:
+                    pass                                   # part of rlExit
+                else:
+                    out.append(f"rlPoll {r['b']}")
+                    out.append(f"oIdle {r['b']} 1")
+            # set by stop(): part of stopEnd
+        elif k == 'idleClear':
+            p = r['p']
+            if p.startswith('R'):
+                out.append(f"rlWake {r['b']}")
+            elif p.startswith('X') and len(p) > 1:
+                out.append(f"wiRecheck {p[1:]}")
+            else:
+                out.append(f"unknownIdleClear {p}")
+        elif k == 'rlDone':
+            out.append(f"rlDone {r['b']}")
+            out.append(f"oIdle {r['b']} {int(r['idle'])}")
+        elif k == 'stopBegin':
+            out.append(f"stopBegin {r['x']} {r['b']} {int(r['clear'])}")
+        elif k == 'stopNoop':
+            out.append(f"stopNoop {r['x']} {r['b']}")
+        elif k == 'stopEnd':
+            out.append(f"stopEnd {r['x']}")
+            out.append(f"oStopTook {r['x']} {ticks(r['took'])}")
+            out.append(f"oIdle {r['b']} {int(r['bus']['idle'])}")
+            out.append(f"oHist {r['b']} {lst(r['bus']['hist'])}")
+        elif k == 'cancelRl':
+            out.append(f"cancelRl {r['b']}")
+        elif k == 'expectBegin':
+            out.append(f"expectBegin {r['x']} {r['b']} {keyno(sc, r['key'])} {r['h']} {r['pred']} {0 if r['timeout'] is None else ticks(r['timeout'])}")
+            out.append(f"oNHandlers {r['b']} {r['bus']['nh'] + 1}")
+        elif k == 'expectEnd':
+            out.append(f"expectEnd {r['x']} {'-' if r['got'] is None else r['got']}")
+            out.append(f"oNHandlers {r['b']} {r['bus']['nh']}")
+        elif k == 'walWrite':
+            out.append(f"walWrite {r['p']} {r['b']} {r['e']} {int(r['ok'])}")
+            if r['ok'] and not r.get('faithful', True):
+                out.append(f"oWalUnfaithful {r['b']} {r['e']} {r['why'].replace(' ', '_')}")
         elif k == 'waitIdleHang':
             out.append(f"waitIdleHang {r['b']}")
+            out.append(f"wiCancel {r['x']}")
         elif k == 'final':
             out.append('rest')
             for e, s in r['events'].items():
@@ -159,7 +218,10 @@ def translate(row, sid, cfg=None):
                 out.append(f"oHist {bi} {lst(bs['hist'])}")
                 out.append(f"oQueue {bi} {lst(bs['q'])}")
                 out.append(f"oUnf {bi} {bs['unf']}")
+                out.append(f"oIdle {bi} {int(bs['idle'])}")
+                out.append(f"oNHandlers {bi} {bs['nh']}")
             out.append(f"oLock {1 if r['sem'] == 1 else 0}")
+            break
         else:
             out.append(f"unknownRecord {k}")
     return out
